@@ -55,7 +55,26 @@ func newReport(prop string) *Report {
 }
 
 // Add records an obligation. Keys are made unique by an ordinal suffix in source order.
+// recvNameOf: receiver identifier of every method (closures inherit their method's); used to
+// make obligation keys independent of how a method names its receiver.
+var recvNameOf = map[string]string{}
+
+func normRecv(fn, construct string) string {
+	rn := recvNameOf[fn]
+	if rn == "" || !strings.Contains(construct, rn) {
+		return construct
+	}
+	toks := tokRe.FindAllString(construct, -1)
+	for i, t := range toks {
+		if t == rn && i+1 < len(toks) && strings.HasPrefix(toks[i+1], ".") {
+			toks[i] = "recv"
+		}
+	}
+	return strings.Join(toks, "")
+}
+
 func (r *Report) Add(rule, fn, construct, pos string, st Status, detail string, nontrivial bool) *Oblig {
+	construct = normRecv(fn, construct)
 	key := rule + "|" + fn + "|" + construct
 	r.keySeen[key]++
 	if n := r.keySeen[key]; n > 1 {
